@@ -6,6 +6,36 @@ ALL = ["C%02d" % i for i in range(1, 21)]
 
 # id -> (category, technique, level text, level note, design section)
 CHECKS = {
+ "C06": ("exploration",
+         "differential runtime monitoring: every TopDocs variant (score, fast fields, string, tweak, custom sort key computers, tuples; K/offset grid; single and multi-threaded executor) vs entries O..O+K of an exhaustive non-pruning collector on the same searcher",
+         "Held on the searches executed (quick ~26 k, thorough ~3e5) over corpora with massive ties, block-max edge cases, postings > 128 and > 4096, 1-8 segments, deletes, missing values: exact equality for single-leaf scores, two-term sums and all non-score keys, 4n-ulp order-statistic check for longer sums, paging enumerates every match once. Three defects of the unchanged tree are listed in known_findings.txt. NaN/-0.0 keys, negative boosts and multi-valued sort fields are not generated.",
+         "Trusted: the exhaustive collector (requires_scoring, no pruning) and the generator's own documents for fast-field keys.",
+         "DESIGN.md §7 C06"),
+ "C08": ("exploration",
+         "differential runtime monitoring of the columnar writer -> file -> reader -> merge pipeline and of tantivy fast fields against a Vec<Vec<value>> model, with value profiles chosen to select every codec and index kind",
+         "Held on the columns read back in full (quick ~3 000, thorough ~36 000): values_for_doc/first/min/max/num_docs/cardinality, get_docids_for_value_range probes, optional-index rank/select, dictionary ordinals and terms, through ColumnarWriter->ColumnarReader, merge_columnar (Stack/Shuffled, alive bitsets, 1-5 inputs, coercions), tantivy fast-field accessors before and after IndexWriter::merge with deletes, and each u64 codec forced in turn. Codec and cardinality actually chosen are read from the column header and reported.",
+         "Trusted: the Vec model and the documented coercion rules; sparse/dense block variant inferred from counts.",
+         "DESIGN.md §7 C08"),
+ "C09": ("exploration",
+         "differential runtime monitoring of the doc store: generated documents of every value type read back through Searcher::doc, StoreReader::get/iter under every compressor, block size, cache size and adversarial access order, before and after stacking / re-compressing merges",
+         "Held on the stores checked (quick ~800, thorough ~17 000): per field same values in the same order (f64 by bit pattern, dates by nanoseconds, JSON numbers strictly typed), non-stored fields never returned, iteration in doc-id order under adversarial alive bitsets; block counts on skip-index layer boundaries (1..10, 63..66, 511..513, 4095..4097); compressors none/lz4/zstd levels; block sizes 0..u32::MAX; dedicated compressor thread on/off; merge paths stack / recompress / sorted remap.",
+         "Trusted: the model document and the block-layout replay used only to classify coverage.",
+         "DESIGN.md §7 C09"),
+ "C12": ("exploration",
+         "differential runtime monitoring: collected scores and explain() vs an independent f32 evaluation of the BM25 formula from public statistics, across collectors and segmentations",
+         "Held on the scored (query, doc, segmentation) triples (quick ~1.3e5, thorough ~2.5e6): score == formula within 2 ulp per clause (bit-identical for > 99 %), explain().value() == collected score (bit-exact for a single clause), identical single-clause scores across collectors/K on one searcher and across segmentations without deletes; field-norm byte == bucket of the real length for lengths across the quantisation table (all 256 ids through the public Bm25Weight/FieldNormReader functions).",
+         "Trusted: the harness' own field-norm table and formula; Bm25Weight is never used as oracle.",
+         "DESIGN.md §7 C12"),
+ "C14": ("exploration",
+         "differential runtime monitoring: AggregationCollector results vs a naive evaluator over the model documents, and partition independence through segmentations, DistributedAggregationCollector + merge_fruits in permuted / regrouped order and postcard round-trips",
+         "Held (apart from the listed known findings) on the (corpus, request, partition) triples executed (quick ~1 700, thorough ~47 000): exact counts, keys and bucket sets; 1e-9 relative for sums/avg/stats; DDSketch and HLL bounds for percentiles/cardinality; documented bounds for truncated terms; limits error instead of truncating. Kinds: value_count..extended_stats, percentiles, cardinality, top_hits, range, histogram, date_histogram, terms, filter, composite, nested to depth 3. 14 defect classes of the unchanged tree are listed in known_findings.txt; a request matching one of their narrow conditions is attributed to it.",
+         "Trusted: the naive evaluator (c14_util/oracle.rs) and its reading of the documented semantics.",
+         "DESIGN.md §7 C14"),
+ "C19": ("exploration",
+         "runtime monitoring of every token of every built-in tokenizer x filter chain on hostile UTF-8 texts (offset/boundary/position/slice assertions, offsets unchanged by filters) and of SnippetGenerator output (substring, length in characters, highlight ranges, re-analysis, independent HTML rendering)",
+         "Held (apart from the listed known findings) on ~2.8e4 (quick) / ~1.3e6 (thorough) evaluations: 52 tokenizers x 128 filter subsets, 17 text classes incl. case mappings that change byte length, combining marks, ZWJ emoji, control characters, tokens up to 1 MB; snippets over 15 query kinds with max_num_chars swept over 0..len+10. Panics are violations.",
+         "Trusted: the harness' escaper and char-boundary arithmetic.",
+         "DESIGN.md §7 C19"),
  "C07": ("exploration",
          "differential runtime monitoring: every (term, doc, tf, positions), doc_freq, field norm and token total of generated segments read back (scan, seek programs, block cursor, position skipping) against a naive model inverted index",
          "Held on the segments generated (quick ~250, thorough ~5 600 segments / 1.2e8 docs): term dictionary == sorted distinct model terms for all 10 value types incl. JSON paths; postings under Basic/WithFreqs/WithFreqsAndPositions by scan and by generated seek programs; posting-list lengths 1,127..129,255..257,k*128(+-1) up to millions, doc-gap widths 1..22 bits, tf/position counts crossing 128, terms of 0..65 530 bytes; degrade rules when more is requested than indexed. Gaps wider than ~22 bits and merged/sorted segments are out of this check (C04/C17).",
